@@ -47,6 +47,19 @@ impl Size {
 
         s * self.mult()
     }
+
+    /// The amount of bytes of the described size, or None if it does not fit the size type
+    pub fn checked_byte_size(&self) -> Option<SizeType> {
+        let (Size::Byte(s)
+        | Size::Word(s)
+        | Size::Block(s)
+        | Size::KiloByte(s)
+        | Size::MegaByte(s)
+        | Size::GigaByte(s)
+        | Size::TeraByte(s)) = self;
+
+        s.checked_mul(self.mult())
+    }
 }
 
 /// Time reference units
